@@ -186,6 +186,51 @@ func c02Run(c *Ctx, ef int, vec []int) {
 	}
 }
 
+// the same vector through EnforceWithMatcher / EnforceExWithMatcher with the matcher handed in,
+// on a model whose OWN matcher does not mention the policy at all (m = r.x == "never"): the
+// merge runs over the rules the given matcher selects
+func c02RunWithMatcher(c *Ctx, ef int, vec []int) {
+	tag := make([]string, len(vec))
+	rules := make([][]string, len(vec))
+	for i, k := range vec {
+		l := c02Letters[k]
+		tag[i] = l.tag
+		rules[i] = []string{fmt.Sprintf("r%d", i), l.m, l.e}
+	}
+	vs := strings.Join(tag, "")
+	if vs == "" {
+		vs = "-"
+	}
+	id := fmt.Sprintf("c02wm.%s.%s", c02Effects[ef].tag, vs)
+	c.Case(id, c02Effects[ef].tag+" "+vs)
+	c.Count(fmt.Sprintf("with-matcher.n=%d", len(vec)))
+	text := "[request_definition]\nr = x\n[policy_definition]\np = id, flag, eft\n[policy_effect]\ne = " + c02Effects[ef].expr + "\n[matchers]\nm = r.x == \"never\"\n"
+	m, err := model.NewModelFromString(text)
+	if err != nil {
+		panic(err)
+	}
+	e, err := casbin.NewEnforcer(m)
+	if err != nil {
+		panic(err)
+	}
+	for _, r := range rules {
+		_, _ = e.AddPolicy(r)
+	}
+	d1, err1 := e.EnforceWithMatcher("r.x == p.flag", "1")
+	d2, ex, err2 := e.EnforceExWithMatcher("r.x == p.flag", "1")
+	exi := -1
+	if len(ex) > 0 {
+		exi = -2
+		for i, r := range rules {
+			if len(ex) == 3 && r[0] == ex[0] && r[1] == ex[1] && r[2] == ex[2] {
+				exi = i
+			}
+		}
+	}
+	c.Obs(id, "enforce", fmt.Sprintf("dec=%s err=%s", B(d1), B(err1 != nil)))
+	c.Obs(id, "enforceex", fmt.Sprintf("dec=%s err=%s ex=%d", B(d2), B(err2 != nil), exi))
+}
+
 // long vectors asked in sequences on ONE enforcer: n in {65, 70, 130} rules whose flag is "1",
 // "2" or "0"; the requests "2", "1", "2", "1" are asked in turn, so that every call follows a call
 // with a different match vector (per-call state such as the effect / match arrays must not leak
@@ -283,6 +328,9 @@ func init() {
 					}
 					if n <= 3 || c.Thorough() {
 						c02RunEftFirst(c, ef, vec)
+					}
+					if n >= 1 && (n <= 3 || c.Thorough()) {
+						c02RunWithMatcher(c, ef, vec)
 					}
 					i := 0
 					for i < n {
